@@ -20,15 +20,17 @@ from ..mon import contracts, pprint_contract as PC
 RULE = ("dictionaries over every (object, keyword, value alternative) built directly from the schema vocabulary, random generated "
         "and loaded documents, corpus files, and dictionaries reached by 1-30 dict-API edits (set/replace/delete keyword, "
         "insert/remove/reorder children, update(), snippet assignment, reads of missing keys, find/findall); each dumps/dump/save "
-        "result is judged by the contract on pprint; distinct = distinct (dictionary fingerprint, option set); non-trivial = the "
+        "result is judged by the contract on pprint; a sample of the same dictionaries (every refused one first) is printed again by "
+        "interpreters started with -O and -OO and must give the same text or the same refusal; distinct = distinct (dictionary fingerprint, option set); non-trivial = the "
         "contract's precondition held and at least one value was compared")
 EVAL_KEY = "contract_evals"
 DISTINCT_KEY = "cases"
 NSHARDS = {"quick": 8, "thorough": 16}
 FLOORS = {"quick": {"contract_judged": 3000, "values_checked": 20000, "histories": 250, "histories_with_missing_read": 40,
-                    "distinct:classes": 200},
+                    "distinct:classes": 200, "optimised_interpreter_prints": 400, "optimised_interpreter_refusals_expected": 200},
           "thorough": {"contract_judged": 35000, "values_checked": 400000, "histories": 15000,
-                       "histories_with_missing_read": 2000, "distinct:classes": 210}}
+                       "histories_with_missing_read": 2000, "distinct:classes": 210, "optimised_interpreter_prints": 1500,
+                       "optimised_interpreter_refusals_expected": 600}}
 ASSUMPTIONS = ["mf/reader.py scans text the way MapServer's lexer classes do (# starts a comment outside strings)",
                "the lexical class required for a value is decided with mf/vocab.py and is two-sided only where the statement is unambiguous"]
 DOMAIN = gen.DOMAIN + ["precondition of the contract (counted as skipped when false): every object carries a __type__ naming a schema, "
@@ -49,6 +51,7 @@ class Driver:
         self.r = ctx.rng("c03")
         self.tmpdir = tempfile.mkdtemp(prefix="mf-c03-")
         self.n = 0
+        self.optcases = []   # (canonical dictionary, options) kept for the interpreter-option phase
         if ctx.shard % 2 == 1:
             # what a process may well have done before it prints anything: validated and created objects for particular MapServer
             # versions (the printer's reading of the schemas must not depend on it)
@@ -118,6 +121,8 @@ class Driver:
             out = None
         res.count("via:" + via)
         reps = PC.take()
+        if (raised is not None and sum(1 for c in self.optcases if c[2]) < 40) or (raised is None and self.n % 25 == 0 and len(self.optcases) < 160):
+            self.optcases.append((case["dict"], opts, raised is not None))
         if raised is not None:
             res.count("dumps_raised")
             if expect_refusal:
@@ -300,10 +305,59 @@ def _run(ctx, drv):
             for x in data["content"]:
                 res.violation("under-repo-tests:" + x["kind"], {"workload": "repo-suite", "test": x["test"], "text": x["text"], "dict": None,
                                                                  "options": None}, x["detail"], None)
+    interpreter_options(ctx, drv)
     res.count("pprint_contract_evals_total", contracts.EVALS.get("pprint", 0))
     res.count("monitor_errors", contracts.EVALS.get("pprint-monitor-error", 0))
     if contracts.EVALS.get("pprint-monitor-error", 0):
         res.inconclusive_because("the pprint monitor itself raised on some outputs")
+
+
+def interpreter_options(ctx, drv):
+    """(5) the same dictionaries printed by interpreters started with -O and -OO (assert statements compiled away): refusals stay
+    refusals and texts stay byte-identical to what the default-mode interpreter writes for the same dictionary."""
+    import subprocess
+
+    import mappyfile
+
+    res = ctx.res
+    cases = [{"dict": c, "options": o} for c, o, _ in drv.optcases]
+    if not cases:
+        return
+    ref = []
+    for c in cases:
+        try:
+            ref.append({"text": mappyfile.dumps(core.decanon(c["dict"]), **c["options"])})
+        except Exception as ex:
+            ref.append({"raised": type(ex).__name__})
+    PC.take()
+    fin = os.path.join(drv.tmpdir, "optcases.json")
+    with open(fin, "w", encoding="utf-8") as f:
+        json.dump(cases, f)
+    env = dict(os.environ, PYTHONPATH=core.VERIF, MF_REPO=core.REPO)
+    env.pop("PYTHONOPTIMIZE", None)
+    for flag in ("-O", "-OO"):
+        fout = os.path.join(drv.tmpdir, "optout.json")
+        try:
+            p = subprocess.run([core.PY, flag, "-m", "mf.optchild", fin, fout], env=env, cwd=core.VERIF, capture_output=True, text=True, timeout=600)
+            with open(fout, encoding="utf-8") as f:
+                got = json.load(f)
+        except Exception as ex:
+            res.inconclusive_because(f"interpreter-option child ({flag}) did not finish: {type(ex).__name__}")
+            continue
+        if got["debug"] or not os.path.realpath(got["mappyfile"]).startswith(os.path.realpath(core.REPO) + os.sep):
+            res.inconclusive_because(f"interpreter-option child ({flag}) did not run the repository's tree with assertions off")
+            continue
+        res.count("optimised_interpreter_runs")
+        for c, a, b in zip(cases, ref, got["outcomes"]):
+            res.count("optimised_interpreter_prints")
+            if "raised" in a:
+                res.count("optimised_interpreter_refusals_expected")
+            if ("raised" in a) != ("raised" in b):
+                res.violation("refusal-depends-on-interpreter-options", {"workload": "interpreter-options", "flag": flag, "dict": c["dict"],
+                                                                         "options": c["options"]}, b, a)
+            elif "text" in a and a["text"] != b["text"]:
+                res.violation("text-depends-on-interpreter-options", {"workload": "interpreter-options", "flag": flag, "dict": c["dict"],
+                                                                      "options": c["options"]}, b["text"][:300], a["text"][:300])
 
 
 def replay(ctx, v):
@@ -311,6 +365,10 @@ def replay(ctx, v):
     try:
         case = v["case"]
         d = core.decanon(case["dict"])
+        if case.get("workload") == "interpreter-options":
+            drv.optcases.append((case["dict"], case["options"], True))
+            interpreter_options(ctx, drv)
+            return
         out = drv.emit(d, case["options"], "replay")
         print(out)
     finally:
